@@ -1,10 +1,15 @@
 import GormModel.Drv.Util
+import GormModel.Gen.GuardWhereFacts
 open Lean
 namespace Gorm.Drv
 
 /-- line-protocol handler for C09 (ops are JSON arrays `[opname, args…]`); returns `none` for ops it does not own -/
 def handleC09 (op : String) (args : Array Json) : Option Json := do
   match op with
+  | "c09.facts" =>
+    -- the regenerated facts that tell whether the repair of F26-C09-empty-where-entry is present in the tree under test
+    some (Json.mkObj [("guardRejectsEmptyWhere", Json.bool Gen.guardRejectsEmptyWhere),
+      ("guardFnFound", Json.bool Gen.guardFnFound), ("guardSoftBranchFound", Json.bool Gen.guardSoftBranchFound)])
   | _ => none
 
 end Gorm.Drv
